@@ -13,6 +13,7 @@ import (
 	"strings"
 	"sync"
 
+	"github.com/go-logr/logr"
 	"github.com/prometheus/client_golang/prometheus"
 	dto "github.com/prometheus/client_model/go"
 	"github.com/prometheus/common/model"
@@ -131,7 +132,6 @@ type Obs struct {
 	GatherErr string    `json:"gerr"`
 	Invalid   []string  `json:"invalid"` // names/labels failing the model validity predicates
 	Fams      []OFamily `json:"fams"`
-	Order     []string  `json:"order"` // marker values in the order their series left Collect
 }
 
 func fmtF(v float64) string {
@@ -291,7 +291,12 @@ func directCollect(c prometheus.Collector) (ms []prometheus.Metric, panicked str
 
 // ---------------------------------------------------------------- a real exporter + provider
 
-const marker = "vinst" // every measurement carries vinst=<instrument id>: identifies series
+// every measurement carries vinst=i<instrument id> and vas=a<attribute set index>: they identify the
+// series in the exposition and the data point in the SDK's view
+const (
+	marker   = "vinst"
+	markerAS = "vas"
+)
 
 type world struct {
 	opts   Opts
@@ -304,6 +309,7 @@ type world struct {
 	mu     sync.Mutex
 	errs   []string // errors reported through otel.Handle during the scenario
 	scopes map[string]metric.Meter
+	maxScale int // MaxScale of exponential histogram views
 }
 
 type rinst struct {
@@ -320,12 +326,11 @@ type obsPoint struct {
 
 var histBounds = []float64{5, 10}
 
-type errHandler struct{ w **world }
-
 var curWorld *world
 var curMu sync.Mutex
 
 func init() {
+	otel.SetLogger(logr.Discard()) // type / description conflicts are logged by the exporter: not an observation here
 	otel.SetErrorHandler(otel.ErrorHandlerFunc(func(err error) {
 		curMu.Lock()
 		w := curWorld
@@ -344,7 +349,7 @@ func newWorld(o Opts, res []Attr) (*world, error) {
 	if o.Scheme != *scheme {
 		return nil, fmt.Errorf("scenario scheme %q but process runs %q", o.Scheme, *scheme)
 	}
-	w := &world{opts: o, res: res, insts: map[int]*rinst{}, expo: map[string]bool{}, scopes: map[string]metric.Meter{}}
+	w := &world{opts: o, res: res, insts: map[int]*rinst{}, expo: map[string]bool{}, scopes: map[string]metric.Meter{}, maxScale: *expoMaxScale}
 	curMu.Lock()
 	curWorld = w
 	curMu.Unlock()
@@ -380,9 +385,9 @@ func newWorld(o Opts, res []Attr) (*world, error) {
 	view := func(i sdkmetric.Instrument) (sdkmetric.Stream, bool) {
 		w.mu.Lock()
 		defer w.mu.Unlock()
-		if w.expo[i.Name] {
+		if w.expo[i.Scope.Name+"\x00"+i.Name] {
 			return sdkmetric.Stream{Name: i.Name, Description: i.Description, Unit: i.Unit,
-				Aggregation: sdkmetric.AggregationBase2ExponentialHistogram{MaxSize: 160, MaxScale: int32(*expoMaxScale)}}, true
+				Aggregation: sdkmetric.AggregationBase2ExponentialHistogram{MaxSize: 160, MaxScale: int32(w.maxScale)}}, true
 		}
 		return sdkmetric.Stream{}, false
 	}
@@ -424,7 +429,7 @@ func (w *world) create(in Inst) error {
 	bk := baseKind(k)
 	if bk == "exphist" {
 		w.mu.Lock()
-		w.expo[name] = true
+		w.expo[in.Scope+"\x00"+name] = true
 		w.mu.Unlock()
 	}
 	var err error
@@ -558,18 +563,23 @@ func (ri *rinst) observeI(o metric.Int64Observer) {
 	}
 }
 
-// record adds one measurement with the abstract attribute set plus the marker.
-func (w *world) record(id int, as []Attr, v float64) {
-	ri := w.insts[id]
-	a := append(kvs(as), attribute.String(marker, "i"+strconv.Itoa(id)))
+func recordOn(ri *rinst, id int, asIdx int, as []Attr, v float64) {
+	a := append(kvs(as), attribute.String(marker, "i"+strconv.Itoa(id)), attribute.String(markerAS, "a"+strconv.Itoa(asIdx)))
 	ri.add(context.Background(), v, a)
 }
 
-// scrape = direct Collect under recover; if that did not panic, registry checks of what was
-// collected (replayed through a fresh real Registry) and a real Gather of the registry the
-// exporter registered with; the two must agree.
-func (w *world) scrape() Obs {
-	o := Obs{Invalid: []string{}, Fams: []OFamily{}, Order: []string{}}
+// record adds one measurement with the abstract attribute set (index asIdx, 1-based) plus the markers.
+func (w *world) record(id int, asIdx int, as []Attr, v float64) {
+	ri := w.insts[id]
+	a := append(kvs(as), attribute.String(marker, "i"+strconv.Itoa(id)), attribute.String(markerAS, "a"+strconv.Itoa(asIdx)))
+	ri.add(context.Background(), v, a)
+}
+
+// collectObs = one scrape by calling Collect on the captured collector directly, under recover
+// (a panic inside registry.Gather's goroutine could not be recovered). What was collected is then
+// checked by a real, fresh Registry (replayed through it): Gather error, validity of names.
+func (w *world) collectObs() Obs {
+	o := Obs{Invalid: []string{}, Fams: []OFamily{}}
 	if len(w.reg.cs) != 1 {
 		o.Panic = fmt.Sprintf("harness: %d collectors captured", len(w.reg.cs))
 		return o
@@ -578,18 +588,6 @@ func (w *world) scrape() Obs {
 	if p != "" {
 		o.Panic = p
 		return o
-	}
-	for _, m := range ms {
-		var d dto.Metric
-		if err := m.Write(&d); err == nil {
-			for _, lp := range d.Label {
-				if lp.GetName() == marker {
-					if len(o.Order) == 0 || o.Order[len(o.Order)-1] != lp.GetValue() {
-						o.Order = append(o.Order, lp.GetValue())
-					}
-				}
-			}
-		}
 	}
 	r2 := prometheus.NewRegistry()
 	if err := r2.Register(replayCollector{ms}); err != nil {
@@ -601,16 +599,18 @@ func (w *world) scrape() Obs {
 		o.GatherErr = err.Error()
 	}
 	o.Fams, o.Invalid = projectFamilies(mfs)
-	// the real thing (safe now: the same state did not panic a moment ago)
-	mfs2, err2 := w.reg.inner.Gather()
-	f2, _ := projectFamilies(mfs2)
-	e2 := ""
-	if err2 != nil {
-		e2 = err2.Error()
+	return o
+}
+
+// gatherObs = one scrape through the registry the exporter registered with (the production path).
+// Only called after collectObs proved that the same state does not panic.
+func (w *world) gatherObs() Obs {
+	o := Obs{Invalid: []string{}, Fams: []OFamily{}}
+	mfs, err := w.reg.inner.Gather()
+	if err != nil {
+		o.GatherErr = err.Error()
 	}
-	if fmt.Sprint(f2) != fmt.Sprint(o.Fams) || (e2 == "") != (o.GatherErr == "") {
-		o.Invalid = append(o.Invalid, "gather-differs-from-direct-collect")
-	}
+	o.Fams, o.Invalid = projectFamilies(mfs)
 	return o
 }
 
@@ -618,7 +618,7 @@ func (w *world) scrape() Obs {
 
 // SPoint is one data point of the SDK's own (cumulative) view through the same reader.
 type SPoint struct {
-	Attrs  [][]string `json:"attrs"` // emitted [[key, value]] without the marker, sorted by key
+	AS     int        `json:"as"` // attribute set index (from the vas marker)
 	Val    string     `json:"val"`
 	Count  int64      `json:"count"`
 	Sum    string     `json:"sum"`
@@ -645,18 +645,14 @@ func i64s[N int64 | uint64](in []N) []int64 {
 	return out
 }
 
-func attrsOf(set attribute.Set) (out [][]string, id string) {
-	out = [][]string{}
-	it := set.Iter()
-	for it.Next() {
-		kv := it.Attribute()
-		if string(kv.Key) == marker {
-			id = kv.Value.AsString()
-			continue
-		}
-		out = append(out, []string{string(kv.Key), kv.Value.Emit()})
+func attrsOf(set attribute.Set) (as int, id string) {
+	if v, ok := set.Value(marker); ok {
+		id = v.AsString()
 	}
-	return out, id
+	if v, ok := set.Value(markerAS); ok {
+		as, _ = strconv.Atoi(strings.TrimPrefix(v.AsString(), "a"))
+	}
+	return as, id
 }
 
 func sumPoints[N int64 | float64](dps []metricdata.DataPoint[N]) (pts []SPoint, id string) {
@@ -664,7 +660,7 @@ func sumPoints[N int64 | float64](dps []metricdata.DataPoint[N]) (pts []SPoint, 
 	for _, dp := range dps {
 		a, i := attrsOf(dp.Attributes)
 		id = i
-		pts = append(pts, SPoint{Attrs: a, Val: fmtF(float64(dp.Value)), Counts: []int64{}, PCnt: []int64{}, NCnt: []int64{}})
+		pts = append(pts, SPoint{AS: a, Val: fmtF(float64(dp.Value)), Counts: []int64{}, PCnt: []int64{}, NCnt: []int64{}})
 	}
 	return
 }
@@ -674,7 +670,7 @@ func histPoints[N int64 | float64](dps []metricdata.HistogramDataPoint[N]) (pts 
 	for _, dp := range dps {
 		a, i := attrsOf(dp.Attributes)
 		id = i
-		pts = append(pts, SPoint{Attrs: a, Count: int64(dp.Count), Sum: fmtF(float64(dp.Sum)), Counts: i64s(dp.BucketCounts),
+		pts = append(pts, SPoint{AS: a, Count: int64(dp.Count), Sum: fmtF(float64(dp.Sum)), Counts: i64s(dp.BucketCounts),
 			PCnt: []int64{}, NCnt: []int64{}})
 	}
 	return
@@ -685,7 +681,7 @@ func expPoints[N int64 | float64](dps []metricdata.ExponentialHistogramDataPoint
 	for _, dp := range dps {
 		a, i := attrsOf(dp.Attributes)
 		id = i
-		pts = append(pts, SPoint{Attrs: a, Count: int64(dp.Count), Sum: fmtF(float64(dp.Sum)), Counts: []int64{},
+		pts = append(pts, SPoint{AS: a, Count: int64(dp.Count), Sum: fmtF(float64(dp.Sum)), Counts: []int64{},
 			Scale: int64(dp.Scale), Zero: int64(dp.ZeroCount), POff: int64(dp.PositiveBucket.Offset), PCnt: i64s(dp.PositiveBucket.Counts),
 			NOff: int64(dp.NegativeBucket.Offset), NCnt: i64s(dp.NegativeBucket.Counts)})
 	}
